@@ -6,6 +6,16 @@
 //@ unverified composite traversal over a real glyf table (visit_outline / visit_composite_glyph_outline need a GlyfTable with parsed records)
 use crate::tables::glyf::{BoundingBox, Point, SimpleGlyphFlag};
 
+// Kani attaches an integer-style "would overflow" check + assumption to the float SIMD intrinsics behind pathfinder's Vector2F
+// (spurious on float lanes, and the assumption silently prunes every path that goes through Vector2F::lerp / + / - / *).
+// The SSE operations are therefore stubbed by their lane-wise IEEE definition (Intel SDM: ADDPS/SUBPS/MULPS operate per lane).
+use std::arch::x86_64::__m128;
+fn lanes(a: __m128) -> [f32; 4] { unsafe { std::mem::transmute(a) } }
+fn pack(a: [f32; 4]) -> __m128 { unsafe { std::mem::transmute(a) } }
+fn stub_add_ps(a: __m128, b: __m128) -> __m128 { let (a, b) = (lanes(a), lanes(b)); pack([a[0] + b[0], a[1] + b[1], a[2] + b[2], a[3] + b[3]]) }
+fn stub_sub_ps(a: __m128, b: __m128) -> __m128 { let (a, b) = (lanes(a), lanes(b)); pack([a[0] - b[0], a[1] - b[1], a[2] - b[2], a[3] - b[3]]) }
+fn stub_mul_ps(a: __m128, b: __m128) -> __m128 { let (a, b) = (lanes(a), lanes(b)); pack([a[0] * b[0], a[1] * b[1], a[2] * b[2], a[3] * b[3]]) }
+
 #[derive(Copy, Clone, PartialEq, Debug)]
 enum Cmd { M(f32, f32), L(f32, f32), Q(f32, f32, f32, f32), Z, None }
 
@@ -91,6 +101,10 @@ fn contour_case<const N: usize>(symbolic_coordinates: bool) {
     let mut rec = Rec { cmds: [Cmd::None; 12], n: 0 };
     GlyfTable::visit_simple_glyph_outline(&mut rec, Transform2F { vector: Vector2F::zero(), matrix: Matrix2x2F::from_scale(1.0) }, &glyph).unwrap();
     let want = spec_path::<N>(&on, &x, &y);
+    // vacuity guards: the patterns that need implied mid-points (also across the closing edge) are really explored
+    kani::cover!(!on[0] && !on[1], "two consecutive off-curve points");
+    kani::cover!(!on[0] && !on[N - 1], "off-curve first and last point");
+    kani::cover!(!on[0] && on[N - 1] && !on[N - 2], "start off-curve, end on-curve, penultimate off-curve");
     assert!(rec.n == want.n, "number of drawing commands");
     let mut k = 0;
     while k < 12 {
@@ -101,21 +115,33 @@ fn contour_case<const N: usize>(symbolic_coordinates: bool) {
 
 //@ harness contour_patterns4 kind=bounded:4points_all_16_patterns fns=GlyfTable::visit_simple_glyph_outline,Contour::calculate_origin,Contour::points,Points::next,SimpleGlyph::contours timeout=900 props=C16
 #[kani::proof]
+#[kani::stub(std::arch::x86_64::_mm_add_ps, stub_add_ps)]
+#[kani::stub(std::arch::x86_64::_mm_sub_ps, stub_sub_ps)]
+#[kani::stub(std::arch::x86_64::_mm_mul_ps, stub_mul_ps)]
 #[kani::unwind(14)]
 fn contour_patterns4() { contour_case::<4>(false) }
 
 //@ harness contour_patterns5 kind=bounded:5points_all_32_patterns fns=GlyfTable::visit_simple_glyph_outline,Contour::calculate_origin,Contour::points,Points::next timeout=900 props=C16
 #[kani::proof]
+#[kani::stub(std::arch::x86_64::_mm_add_ps, stub_add_ps)]
+#[kani::stub(std::arch::x86_64::_mm_sub_ps, stub_sub_ps)]
+#[kani::stub(std::arch::x86_64::_mm_mul_ps, stub_mul_ps)]
 #[kani::unwind(16)]
 fn contour_patterns5() { contour_case::<5>(false) }
 
 //@ harness contour3 kind=bounded:3points_symbolic_coordinates fns=GlyfTable::visit_simple_glyph_outline,Contour::calculate_origin,Contour::points,Points::next timeout=1500 tier=thorough props=C16
 #[kani::proof]
+#[kani::stub(std::arch::x86_64::_mm_add_ps, stub_add_ps)]
+#[kani::stub(std::arch::x86_64::_mm_sub_ps, stub_sub_ps)]
+#[kani::stub(std::arch::x86_64::_mm_mul_ps, stub_mul_ps)]
 #[kani::unwind(14)]
 fn contour3() { contour_case::<3>(true) }
 
 //@ harness contour_ends kind=bounded:2contours fns=SimpleGlyph::contours,Contour::new timeout=600
 #[kani::proof]
+#[kani::stub(std::arch::x86_64::_mm_add_ps, stub_add_ps)]
+#[kani::stub(std::arch::x86_64::_mm_sub_ps, stub_sub_ps)]
+#[kani::stub(std::arch::x86_64::_mm_mul_ps, stub_mul_ps)]
 #[kani::unwind(8)]
 fn contour_ends() {
     // any endPtsOfContours over 3 points (non-monotone, repeated, out of range): no panic, only an error or a (possibly shorter) path
